@@ -350,6 +350,10 @@ func (l *Listener) SetDeadline(t time.Time) error {
 	return nil
 }
 
+// Blocked reports whether some thread is parked in Accept with nothing to return: the service is
+// genuinely waiting for a connection.
+func (l *Listener) Blocked() bool { return l.Waiting > 0 && !l.acceptable() }
+
 // IsClosed reports whether Close was called.
 func (l *Listener) IsClosed() bool { return l.closed }
 
